@@ -1,1 +1,461 @@
-"""Rules for C01 (see DESIGN.md section 5)."""
+"""C01 -- every symbol decodes back to exactly the content: tables, packing, bit budget, ECI gating,
+merge legality, pair predicates, text->bytes policy, emission order."""
+import ast
+
+from .. import ev, iso, nf, pat, src
+from ..core import rule, ob, explain, Ob
+from ..ev import PyRaise
+from ..interp import Interp, make_callable, FuncVal
+from ..src import Unknown
+from .common import C, levels, micro_versions, modes, table_ob, need, single
+from .models import BufModel, SegModel, SegmentsModel, encoder_env
+from . import p04, wrappers
+
+explain('C01', '''Decided (structural necessary conditions of decodability): mode indicators, Micro mode indicators,
+character-count widths, the alphanumeric table and the ECI assignment numbers equal the ISO tables; for each mode the
+loop body of make_segment is evaluated as a finite truth table over the complete domain of one packing group (every 1-3
+digit group, every alphanumeric pair/single, every byte value, every 16-bit pair code on the partition its constants
+induce) and equals the ISO 7.4.3-7.4.6 formula, with the loop stride equal to the group size; the byte-pair predicates
+(is_kanji, the kanji/hanzi range tests) accept exactly valid characters, i.e. stay inside the domain on which the 13-bit
+packing is injective; the bits budgeted equal the bits written for every version/mode/ECI/SA combination; the ECI header
+is written exactly for byte segments with a non-default encoding when eci is set, carries the assignment number of the
+segment's own encoding, and eci never coexists with a Micro version; same-mode parts are merged only at a packing-group
+boundary and the Segments bookkeeping stays consistent; data_to_bytes leaves bytes alone, uses exactly a requested codec,
+else tries ISO-8859-1, Shift JIS, UTF-8 in this order and reports the codec that succeeded; header fields are emitted in
+ISO order; the public factories forward content/encoding/eci unchanged. NOT decided: that zig-zag placement, masking
+and format placement are mutually inverse for every content (C02/C03 decide their data-independent parts), the Python
+codecs, and therefore the round trip itself.''')
+
+
+@rule('C01', 'R1', 70, 'mode indicators, count-indicator widths, alphanumeric table, ECI numbers, encodings = ISO tables')
+def r1(fx):
+    md = modes(fx)
+    for name, want in iso.MODE_INDICATOR.items():
+        yield table_ob(fx, 'MODE_' + name.upper(), 'value', md[name], want)
+    mm = C(fx, 'MODE_TO_MICRO_MODE_MAPPING')
+    yield table_ob(fx, 'MODE_TO_MICRO_MODE_MAPPING', 'all', mm, {md[k]: v for k, v in iso.MICRO_MODE_INDICATOR.items()})
+    mv = micro_versions(fx)
+    cci = C(fx, 'CHAR_COUNT_INDICATOR_LENGTH')
+    ranges = {1: C(fx, 'VERSION_RANGE_01_09'), 2: C(fx, 'VERSION_RANGE_10_26'), 3: C(fx, 'VERSION_RANGE_27_40')}
+    yield table_ob(fx, 'VERSION_RANGE_*', 'distinct', len(set(ranges.values())) == 3 and not set(ranges.values()) & set(mv.values()), True)
+    yield table_ob(fx, 'CHAR_COUNT_INDICATOR_LENGTH', 'modes', sorted(cci.keys()), sorted(md[m] for m in iso.CCI))
+    for name, widths in iso.CCI.items():
+        row = cci.get(md[name], {})
+        want = {(ranges[k] if k >= 1 else mv[k]): w for k, w in widths.items()}
+        for k in sorted(set(row) | set(want), key=repr):
+            yield table_ob(fx, 'CHAR_COUNT_INDICATOR_LENGTH', f'{name}/{k}', row.get(k), want.get(k))
+    yield table_ob(fx, 'ALPHANUMERIC_CHARS', 'all', C(fx, 'ALPHANUMERIC_CHARS'), iso.ALPHANUMERIC)
+    eci = C(fx, 'ECI_ASSIGNMENT_NUM')
+    for k in sorted(set(eci) | set(iso.ECI)):
+        yield table_ob(fx, 'ECI_ASSIGNMENT_NUM', k, eci.get(k), iso.ECI.get(k))
+    yield table_ob(fx, 'ECI_ASSIGNMENT_NUM', 'one-byte designators', all(0 <= v < 128 for v in eci.values()), True)
+    for n, want in (('DEFAULT_BYTE_ENCODING', 'iso-8859-1'), ('KANJI_ENCODING', 'shift_jis'), ('HANZI_ENCODING', 'gb2312')):
+        yield table_ob(fx, n, 'value', C(fx, n), want)
+    mp = C(fx, 'MODE_MAPPING')
+    yield table_ob(fx, 'MODE_MAPPING', 'all', mp, {k: md[k] for k in ('numeric', 'alphanumeric', 'byte', 'kanji', 'hanzi')})
+
+
+# ---- R2: packing ---------------------------------------------------------------------------
+
+def _mode_chain(fx, fn):
+    """The if/elif chain of make_segment that dispatches on segment_mode: [(set of modes, body)]."""
+    md = modes(fx)
+    env = ev.base_env(fx.forest, 'encoder')
+    chain = [s for s in fn.body if isinstance(s, ast.If) and 'segment_mode ==' in ast.unparse(s.test)
+             and any(isinstance(x, ast.For) for x in s.body)]
+    top = single(chain, 'mode dispatch chain in make_segment')
+    branches = []
+    remaining = {md[k]: k for k in ('numeric', 'alphanumeric', 'byte', 'kanji', 'hanzi')}
+    node = top
+    while True:
+        sel = [k for val, k in remaining.items() if ev.ev(node.test, dict(env, segment_mode=val))]
+        for k in sel:
+            del remaining[md[k]]
+        branches.append((sel, node.body, node))
+        if len(node.orelse) == 1 and isinstance(node.orelse[0], ast.If):
+            node = node.orelse[0]
+        else:
+            if node.orelse:
+                branches.append((sorted(remaining.values()), node.orelse, node))
+            break
+    return branches
+
+
+def _pair_lows(body):
+    """Representative low bytes: fixed boundaries plus the low bytes (+-1) of every constant in the body."""
+    lows = {0x00, 0x01, 0x3F, 0x40, 0x41, 0x7E, 0x7F, 0x80, 0x81, 0x9F, 0xA0, 0xA1, 0xA2, 0xBF, 0xC0, 0xC1,
+            0xFB, 0xFC, 0xFD, 0xFE, 0xFF}
+    for st in body:
+        for n in ast.walk(st):
+            if isinstance(n, ast.Constant) and isinstance(n.value, int) and not isinstance(n.value, bool):
+                for d in (-1, 0, 1):
+                    lows.add((n.value + d) & 0xFF)
+    return sorted(lows)
+
+
+def kanji_ref(code):
+    lo = code & 0xFF
+    if not (0x40 <= lo <= 0xFC and lo != 0x7F):
+        return None
+    if 0x8140 <= code <= 0x9FFC:
+        d = code - 0x8140
+    elif 0xE040 <= code <= 0xEBBF:
+        d = code - 0xC140
+    else:
+        return None
+    return (d >> 8) * 0xC0 + (d & 0xFF)
+
+
+def hanzi_ref(code):
+    lo = code & 0xFF
+    if not 0xA1 <= lo <= 0xFE:
+        return None
+    if 0xA1A1 <= code <= 0xAAFE:
+        d = code - 0xA1A1
+    elif 0xB0A1 <= code <= 0xFAFE:
+        d = code - 0xA6A1
+    else:
+        return None
+    return (d >> 8) * 0x60 + (d & 0xFF)
+
+
+@rule('C01', 'R2', 12, 'per-mode packing = ISO 7.4.3-7.4.6 (truth table of the loop body over one packing group; stride = group size)')
+def r2(fx):
+    fn = fx.fn('encoder', 'make_segment')
+    branches = _mode_chain(fx, fn)
+    got_modes = sorted(m for sel, _, _ in branches for m in sel)
+    yield ob('dispatch covers each mode exactly once', got_modes == ['alphanumeric', 'byte', 'hanzi', 'kanji', 'numeric']
+             and all(len(sel) == 1 for sel, _, _ in branches), fn, got=[sel for sel, _, _ in branches],
+             want='one branch per mode')
+    need(all(len(sel) == 1 for sel, _, _ in branches), 'mode dispatch is not one branch per mode')
+    it = Interp(max_steps=30_000_000)
+    genv = encoder_env(fx.forest, it)
+    full = fx.tier == 'thorough'
+    for sel, body, node in branches:
+        mode = sel[0]
+        loop = single([s for s in body if isinstance(s, ast.For)], f'loop in the {mode} branch')
+        pre = [s for s in body if s is not loop]
+        group = {'numeric': 3, 'alphanumeric': 2, 'byte': 1, 'kanji': 2, 'hanzi': 2}[mode]
+        # stride
+        if mode == 'byte':
+            okh = ast.unparse(loop.iter) == 'segment_data' and isinstance(loop.target, ast.Name)
+            yield ob('byte: iterates every byte', okh, loop, got=f'for {ast.unparse(loop.target)} in {ast.unparse(loop.iter)}',
+                     want='for b in segment_data')
+            need(okh, 'byte loop shape')
+        else:
+            b = pat.need(loop.iter, 'range(0, segment_length, H_s)', f'{mode} loop header')
+            sv = ev.ev(b['s'], genv)
+            yield ob(f'{mode}: stride = group size {group}', sv == group, loop, got=ast.unparse(loop.iter), want=f'range(0, segment_length, {group})')
+
+        def run(data, i=0, mode=mode):
+            buf = BufModel()
+            e = dict(genv, segment_data=data, segment_length=len(data), append_bits=buf.append_bits, buff=buf, i=i)
+            it.block(pre, e)
+            if mode == 'byte':
+                e[loop.target.id] = data[i]
+            else:
+                e[loop.target.id] = i
+            try:
+                it.block(loop.body, e)
+            except PyRaise as ex:
+                return ('raises', ex.name)
+            return [a for a in buf.appends]
+        bad = None
+        n = 0
+        if mode == 'numeric':
+            cases = [str(x).zfill(w).encode() for w in (1, 2, 3) for x in range(10 ** w)]
+            for c in cases:
+                n += 1
+                got = run(b'999' + c, 3)      # second group: also checks the slice start/end
+                want = [(int(c), 3 * len(c) + 1)]
+                if got != want and bad is None:
+                    bad = (c, got, want)
+        elif mode == 'alphanumeric':
+            al = iso.ALPHANUMERIC
+            cases = [bytes([a, b_]) for a in al for b_ in al] + [bytes([a]) for a in al]
+            for c in cases:
+                n += 1
+                got = run(b'AB' + c, 2)
+                want = [(45 * al.index(c[0]) + al.index(c[1]), 11)] if len(c) == 2 else [(al.index(c[0]), 6)]
+                if got != want and bad is None:
+                    bad = (c, got, want)
+        elif mode == 'byte':
+            for x in range(256):
+                n += 1
+                got = run(bytes([0, x]), 1)
+                if got != [(x, 8)] and bad is None:
+                    bad = (x, got, [(x, 8)])
+        else:
+            ref = kanji_ref if mode == 'kanji' else hanzi_ref
+            lows = range(256) if full else _pair_lows(loop.body)
+            for hi in range(256):
+                for lo in lows:
+                    n += 1
+                    code = (hi << 8) | lo
+                    got = run(bytes([0x81, 0x40, hi, lo]), 2)
+                    r = ref(code)
+                    want = [(r, 13)] if r is not None else ('raises', 'ValueError')
+                    if got != want and bad is None:
+                        bad = (hex(code), got, want)
+        yield ob(f'{mode}: group -> (value, width) over {n} group values', bad is None, loop,
+                 got=f'group {bad[0]}: {bad[1]}' if bad else 'ISO formula', want=f'{bad[2]}' if bad else 'ISO formula')
+    # char_count: bytes for numeric/alnum/byte, pairs for kanji/hanzi
+    cc = single([s for s in fn.body if isinstance(s, ast.Assign) and ast.unparse(s.targets[0]) == 'char_count'], 'char_count')
+    md = modes(fx)
+    okc = all(ev.ev(cc.value, dict(genv, segment_mode=md[m], segment_length=10)) == (5 if m in ('kanji', 'hanzi') else 10)
+              for m in ('numeric', 'alphanumeric', 'byte', 'kanji', 'hanzi'))
+    yield ob('char_count = bytes (numeric, alphanumeric, byte) / byte pairs (kanji, hanzi)', okc, cc, got=ast.unparse(cc.value),
+             want='segment_length or segment_length // 2')
+    # Buffer.append_bits MSB first, toints groups 8 MSB first
+    ab = fx.fn('encoder', 'Buffer.append_bits')
+    st = single([s for s in ab.body if isinstance(s, ast.Expr)], 'statement of Buffer.append_bits')
+    b = pat.need(st.value, 'self._data.extend(H_g)', 'Buffer.append_bits')
+    okb = all(list(ev.ev(b['g'], {'val': v, 'length': ln})) == [(v >> (ln - 1 - k)) & 1 for k in range(ln)]
+              for v, ln in ((0b1011, 4), (5, 8), (0x1ABC, 13), (1, 1)))
+    yield ob('Buffer.append_bits writes `length` bits MSB first', okb, ab, got=ast.unparse(b['g']), want='((val >> i) & 1 for i in reversed(range(length)))')
+    ti = fx.fn('encoder', 'Buffer.toints')
+    r = single([s for s in ti.body if isinstance(s, ast.Return)], 'return of toints')
+    bits = [1, 0, 1, 0, 0, 1, 0, 1, 1, 1]
+
+    class Self:
+        _model = ('_data',)
+        _data = bits
+    e = dict(genv, self=Self(), map=lambda f, x: [f(y) for y in x])
+    vals = list(ev.ev(r.value, e))
+    yield ob('Buffer.toints groups 8 bits MSB first, zero fill', vals == [0xA5, 0xC0], ti, got=vals, want=[0xA5, 0xC0])
+    seg = single([s for s in fn.body if isinstance(s, ast.Return)], 'return of make_segment')
+    bb = pat.need(seg.value, '_Segment(buff.getbits(), char_count, segment_mode, segment_encoding)', 'make_segment result')
+    yield ob('segment = (bits written, char_count, mode, encoding)', bb is not None, seg, got=ast.unparse(seg.value), want='_Segment(...)')
+
+
+@rule('C01', 'R3', 300, 'bits written = bits budgeted (write_segment + SA header vs bit_length_with_overhead), all versions/modes/ECI/SA')
+def r3(fx):
+    yield from p04.sized_equals_written(fx)
+
+
+@rule('C01', 'R4', 40, 'ECI header exactly for byte segments with non-default encoding under eci; designator of the segment encoding; field order')
+def r4(fx):
+    fn = fx.fn('encoder', 'write_segment')
+    md, mv = modes(fx), micro_versions(fx)
+    it = Interp()
+    genv = encoder_env(fx.forest, it, get_eci_assignment_number=lambda enc_: ('ECI#', enc_))
+    ws = FuncVal(fn, genv, it)
+    default = C(fx, 'DEFAULT_BYTE_ENCODING')
+    vr = genv['version_range']
+    conv = p04._caller_convention(fx, fx.fn('encoder', '_encode'))
+    for v in (-3, -2, -1, 0, 1, 10, 27):
+        rv = mv[v] if v < 1 else v
+        ver, ver_range = conv(rv, vr)
+        for m in ('numeric', 'alphanumeric', 'byte', 'kanji', 'hanzi'):
+            if (None if v >= 1 else v) not in iso.SUPPORTED[m]:
+                continue
+            for enc in ((default, 'utf-8', 'shift_jis') if m == 'byte' else (None,)):
+                for eci in ((False, True) if v >= 1 else (False,)):
+                    buf = BufModel()
+                    ws(buf, SegModel(md[m], enc, nbits=5, char_count=3), ver, ver_range, eci)
+                    want = []
+                    if eci and m == 'byte' and enc != default:
+                        want += [(iso.MODE_INDICATOR['eci'], 4), (('ECI#', enc), 8)]
+                    if v >= 1:
+                        want.append((iso.MODE_INDICATOR[m], 4))
+                        if m == 'hanzi':
+                            want.append((1, 4))
+                        want.append((3, iso.CCI[m][iso.version_range(v)]))
+                    else:
+                        if v > -3:
+                            want.append((iso.MICRO_MODE_INDICATOR[m], v + 5 - 0 if False else {-2: 1, -1: 2, 0: 3}[v]))
+                        want.append((3, iso.CCI[m][v]))
+                    want.append(('extend', 5))
+                    yield ob(f'v{v} {m} enc={enc} eci={eci}: header fields', buf.appends == want, fn, got=buf.appends, want=want)
+    # get_eci_assignment_number: table lookup by canonical codec name, KeyError -> ValueError
+    ge = fx.fn('encoder', 'get_eci_assignment_number')
+    r = [s for s in ast.walk(ge) if isinstance(s, ast.Return)]
+    rr = single(r, 'return of get_eci_assignment_number')
+    pat.need(rr.value, 'consts.ECI_ASSIGNMENT_NUM[codecs.lookup(encoding).name]', 'ECI number lookup')
+    yield ob('ECI number = ECI_ASSIGNMENT_NUM[canonical codec name of the encoding]', True, rr, got=ast.unparse(rr.value),
+             want='consts.ECI_ASSIGNMENT_NUM[codecs.lookup(encoding).name]')
+    # segment.encoding is the encoding data_to_bytes used; None for non-byte modes
+    ms = fx.fn('encoder', 'make_segment')
+    a = [s for s in ms.body if isinstance(s, ast.Assign) and 'data_to_bytes' in ast.unparse(s.value)]
+    aa = single(a, 'data_to_bytes call in make_segment')
+    okd = ast.unparse(aa.targets[0]) in ('(segment_data, segment_length, segment_encoding)',) and \
+        pat.match(aa.value, 'data_to_bytes(data, encoding)') is not None
+    yield ob('make_segment takes (bytes, length, encoding) from data_to_bytes(data, encoding)', okd, aa, got=ast.unparse(aa),
+             want='segment_data, segment_length, segment_encoding = data_to_bytes(data, encoding)')
+    hz = [s for s in ms.body if isinstance(s, ast.If) and nf.norm(s.test) in ('mode == consts.MODE_HANZI',)]
+    okh = len(hz) == 1 and ast.unparse(hz[0].body[0]) == 'encoding = consts.HANZI_ENCODING' and ms.body.index(hz[0]) < ms.body.index(aa)
+    yield ob('hanzi forces the GB2312 codec before conversion', okh, ms, got=[ast.unparse(h)[:80] for h in hz],
+             want='if mode == consts.MODE_HANZI: encoding = consts.HANZI_ENCODING')
+
+
+@rule('C01', 'R5', 32, 'same-mode parts are merged only at a packing-group boundary; Segments bookkeeping stays consistent')
+def r5(fx):
+    fn = fx.fn('encoder', 'Segments.add_segment')
+    md = modes(fx)
+    it = Interp()
+
+    def seg_ctor(bits, char_count, mode, encoding=None):
+        s = SegModel(mode, encoding, nbits=0, char_count=char_count)
+        return tuple.__new__(SegModel, (list(bits), char_count, mode, encoding))
+    genv = encoder_env(fx.forest, it, _Segment=seg_ctor)
+    add = FuncVal(fn, genv, it)
+
+    class Self:
+        _model = ('segments', 'bit_length', 'modes')
+
+        def __init__(self):
+            self.segments, self.bit_length, self.modes = [], 0, []
+    group = {'numeric': 3, 'alphanumeric': 2, 'byte': 1, 'kanji': 1, 'hanzi': 1}
+    bits_of = {'numeric': lambda c: (c // 3) * 10 + (0, 4, 7)[c % 3], 'alphanumeric': lambda c: (c // 2) * 11 + 6 * (c % 2),
+               'byte': lambda c: 8 * c, 'kanji': lambda c: 13 * c, 'hanzi': lambda c: 13 * c}
+    for m in group:
+        for c1 in range(1, 7):
+            bad = None
+            for m2 in group:
+                for c2 in (1, 2, 3):
+                    for e1, e2 in ((None, None),) if m != 'byte' or m2 != 'byte' else (('iso-8859-1', 'iso-8859-1'), ('iso-8859-1', 'utf-8')):
+                        me = Self()
+                        s1 = tuple.__new__(SegModel, ([1] * bits_of[m](c1), c1, md[m], e1))
+                        s2 = tuple.__new__(SegModel, ([0] * bits_of[m2](c2), c2, md[m2], e2))
+                        add(me, s1)
+                        add(me, s2)
+                        merged = len(me.segments) == 1
+                        legal = m == m2 and e1 == e2 and c1 % group[m] == 0
+                        inv = (me.modes == [s.mode for s in me.segments] and me.bit_length == sum(len(s.bits) for s in me.segments)
+                               and sum(s.char_count for s in me.segments) == c1 + c2
+                               and [b for s in me.segments for b in s.bits] == list(s1.bits) + list(s2.bits))
+                        if (merged and not legal or not inv) and bad is None:
+                            bad = (m2, c2, e1, e2, 'merged' if merged else 'kept apart', inv)
+            yield ob(f'{m} part of {c1} character(s) followed by another part', bad is None, fn,
+                     got=(f'+ {bad[0]} x{bad[1]} (encodings {bad[2]}/{bad[3]}): {bad[4]}, bookkeeping consistent={bad[5]}' if bad
+                          else 'merged only when the first part ends on a group boundary'),
+                     want='merge only if same mode, same encoding and char_count % group == 0; modes/bit_length consistent')
+    # prepare_data feeds every part through make_segment -> add_segment in order
+    pd = fx.fn('encoder', 'prepare_data')
+    calls = [c for c in src.calls_in(pd) if src.resolve_call(c, src.local_aliases(pd)) == 'segments.add_segment']
+    okp = len(calls) == 2 and all(isinstance(c.args[0], ast.Call) and src.call_name(c.args[0]) == 'make_segment' for c in calls)
+    yield ob('prepare_data: add_segment(make_segment(part, mode, encoding)) for the single content and for each part', okp, pd,
+             got=[ast.unparse(c)[:70] for c in calls], want='two add_segment(make_segment(...)) sites')
+    loop = [s for s in pd.body if isinstance(s, ast.For)]
+    yield ob('prepare_data iterates the parts in order', len(loop) == 1 and ast.unparse(loop[0].iter) == 'content', pd,
+             got=[ast.unparse(l.iter) for l in loop], want='for item in content')
+
+
+@rule('C01', 'R6', 2, 'is_kanji accepts exactly sequences of valid Shift JIS double-byte characters in the two ISO ranges')
+def r6(fx):
+    fn = fx.fn('encoder', 'is_kanji')
+    it = Interp(max_steps=30_000_000)
+    f = make_callable(fx.forest, 'encoder', 'is_kanji', it)
+    full = fx.tier == 'thorough'
+    lows = range(256) if full else _pair_lows(fn.body)
+    bad = None
+    n = 0
+    for hi in range(256):
+        for lo in lows:
+            code = (hi << 8) | lo
+            n += 1
+            got = bool(f(bytes([hi, lo])))
+            want = kanji_ref(code) is not None
+            if got != want and bad is None:
+                bad = (hex(code), got, want)
+            # as second character after a valid one
+            if lo in (0x40, 0x7F, 0xFC) or hi in (0x81, 0x9F, 0xE0, 0xEB):
+                got2 = bool(f(bytes([0x88, 0x9F, hi, lo])))
+                if got2 != want and bad is None:
+                    bad = ('889f' + hex(code)[2:], got2, want)
+    yield ob(f'is_kanji on {n} byte pairs (partition of [0, 65535])', bad is None, fn,
+             got=f'{bad[0]}: {bad[1]}' if bad else 'valid characters only', want=f'{bad[2]}' if bad else 'valid characters only')
+    odd = [bool(f(b)) for b in (b'', b'\x88', b'\x88\x9f\x88')]
+    yield ob('is_kanji rejects empty and odd-length input', odd == [False, False, False], fn, got=odd, want=[False] * 3)
+
+
+class StrModel:
+    """A text whose encodability is a parameter (no characters involved)."""
+    _model = ('encode',)
+
+    def __init__(self, fails):
+        self.fails, self.tried = set(fails), []
+
+    def encode(self, encoding):
+        self.tried.append(encoding)
+        if encoding in self.fails:
+            raise UnicodeEncodeError(encoding, '', 0, 1, 'model')
+        return EncBytes(encoding)
+
+
+class EncBytes:
+    def __init__(self, encoding):
+        self.encoding = encoding
+
+    def __len__(self):
+        return 7
+
+    def __eq__(self, o):
+        return isinstance(o, EncBytes) and o.encoding == self.encoding
+
+
+@rule('C01', 'R7', 9, 'data_to_bytes: bytes unchanged; requested codec only; else ISO-8859-1, Shift JIS, UTF-8; reports the codec used')
+def r7(fx):
+    fn = fx.fn('encoder', 'data_to_bytes')
+    it = Interp()
+    genv = encoder_env(fx.forest, it, str=lambda x: x if isinstance(x, StrModel) else str(x))
+    f = FuncVal(fn, genv, it)
+    d, k = C(fx, 'DEFAULT_BYTE_ENCODING'), C(fx, 'KANJI_ENCODING')
+    for fails, want_enc, want_tried in (((), d, [d]), ((d,), k, [d, k]), ((d, k), 'utf-8', [d, k, 'utf-8'])):
+        s = StrModel(fails)
+        data, ln, enc = f(s, None)
+        yield ob(f'no encoding requested, not encodable in {list(fails)}', (enc, s.tried) == (want_enc, want_tried)
+                 and data == EncBytes(want_enc) and ln == 7, fn, got=(enc, s.tried), want=(want_enc, want_tried))
+    for req in ('utf-8', 'cp1252', 'shift_jis'):
+        s = StrModel(())
+        data, ln, enc = f(s, req)
+        yield ob(f'requested {req}: exactly that codec', (enc, s.tried) == (req, [req]) and data == EncBytes(req), fn,
+                 got=(enc, s.tried), want=(req, [req]))
+    s = StrModel(('ascii',))
+    try:
+        f(s, 'ascii')
+        got = 'returned'
+    except PyRaise as e:
+        got = e.name
+    yield ob('requested codec that cannot represent the text: error propagates (no fallback)', got in ('UnicodeEncodeError', 'UnicodeError')
+             and s.tried == ['ascii'], fn, got=(got, s.tried), want=('UnicodeEncodeError', ['ascii']))
+    for req, want_enc in ((None, d), ('utf-8', 'utf-8')):
+        raw = b'\x00\xff raw'
+        data, ln, enc = f(raw, req)
+        yield ob(f'bytes content (encoding={req}) is left unchanged', data is raw and ln == len(raw) and enc == want_enc, fn,
+                 got=(data, ln, enc), want=(raw, len(raw), want_enc))
+    data, ln, enc = f(12345, None)
+    yield ob('integers are converted through their decimal digits', (data, ln, enc) == (b'12345', 5, d), fn, got=(data, ln, enc),
+             want=(b'12345', 5, d))
+
+
+@rule('C01', 'R8', 3, '_encode emits SA header, then the segments in order, then terminator/padding')
+def r8(fx):
+    enc = fx.fn('encoder', '_encode')
+    order = []
+    for st in enc.body:
+        t = ast.unparse(st)
+        if isinstance(st, ast.If) and ast.unparse(st.test) == 'sa_mode':
+            order.append('sa')
+        elif isinstance(st, ast.For) and 'write_segment' in t:
+            order.append('segments')
+            b = pat.match(st.iter, 'segments')
+            c = [x for x in src.calls_in(st, 'write_segment')]
+            oks = b is not None and len(c) == 1 and pat.match(c[0], f'write_segment(buff, {ast.unparse(st.target)}, ver, ver_range, eci)') is not None
+            yield ob('segments are written in list order with the symbol-level ver/ver_range/eci', oks, st, got=t[:100],
+                     want='for segment in segments: write_segment(buff, segment, ver, ver_range, eci)')
+        elif isinstance(st, ast.Expr) and isinstance(st.value, ast.Call) and src.call_name(st.value) == 'write_terminator':
+            order.append('terminator')
+        elif isinstance(st, ast.Assign) and 'make_final_message' in t:
+            order.append('final')
+    yield ob('order of emission in _encode', order == ['sa', 'segments', 'terminator', 'final'], enc, got=order,
+             want=['sa', 'segments', 'terminator', 'final'])
+    fm = [s for s in enc.body if isinstance(s, ast.Assign) and 'make_final_message' in ast.unparse(s)]
+    a = single(fm, 'make_final_message call')
+    yield ob('final message built from (version, error, buff)', pat.match(a.value, 'make_final_message(version, error, buff)') is not None,
+             a, got=ast.unparse(a.value), want='make_final_message(version, error, buff)')
+
+
+@rule('C01', 'R9', 10, 'public factories forward content / encoding / eci unchanged')
+def r9(fx):
+    yield from wrappers.forwarding(fx, {'content', 'encoding', 'eci'})
